@@ -146,53 +146,6 @@ func setup(t *testing.T, out *hx.Out) *env {
 			e.txids[a] = append(e.txids[a], id)
 		}
 	}
-	// ERC-20 faces: WFX (token pair of the default denom) for every pool contract, spendable by the crosschain precompile
-	fip := contract.GetFIP20()
-	maxU := new(big.Int).Sub(new(big.Int).Lsh(big.NewInt(1), 255), big.NewInt(1))
-	if pair, ok := s.App.Erc20Keeper.GetTokenPair(s.Ctx, fxtypes.DefaultDenom); ok {
-		e.wfx = pair.GetERC20Contract()
-		for _, a := range e.pool {
-			if _, err := s.App.Erc20Keeper.ConvertCoin(s.Ctx, &erc20types.MsgConvertCoin{Coin: sdk.NewCoin(fxtypes.DefaultDenom, big18(1000)),
-				Receiver: a.Hex(), Sender: sdk.AccAddress(a.Bytes()).String()}); err != nil {
-				out.Count("setup:wfx-convert-error:" + firstLine(err.Error()))
-				e.wfx = common.Address{}
-				break
-			}
-			if _, err := s.App.EvmKeeper.ApplyContract(s.Ctx, a, e.wfx, nil, fip.ABI, "approve", e.cross, maxU); err != nil {
-				out.Count("setup:wfx-approve-error:" + firstLine(err.Error()))
-			}
-		}
-	} else {
-		out.Count("setup:no-FX-token-pair")
-	}
-	// a native ERC-20 (contract owner external) with an eth bridge alias
-	func() {
-		mod := s.App.Erc20Keeper.ModuleAddress()
-		tok, err := s.App.Erc20Keeper.DeployUpgradableToken(s.Ctx, mod, "Test token", "TST", 18)
-		if err != nil {
-			out.Count("setup:tst-deploy-error:" + firstLine(err.Error()))
-			return
-		}
-		for _, a := range e.pool {
-			if _, err := s.App.EvmKeeper.ApplyContract(s.Ctx, mod, tok, nil, fip.ABI, "mint", a, big18(1000).BigInt()); err != nil {
-				out.Count("setup:tst-mint-error:" + firstLine(err.Error()))
-				return
-			}
-		}
-		ext := helpers.GenExternalAddr(ethtypes.ModuleName)
-		alias := crosschaintypes.NewBridgeDenom(ethtypes.ModuleName, ext)
-		s.App.EthKeeper.AddBridgeToken(s.Ctx, alias, alias)
-		if _, err := s.App.Erc20Keeper.RegisterNativeERC20(s.Ctx, tok, alias); err != nil {
-			out.Count("setup:tst-register-error:" + firstLine(err.Error()))
-			return
-		}
-		for _, a := range e.pool {
-			if _, err := s.App.EvmKeeper.ApplyContract(s.Ctx, a, tok, nil, fip.ABI, "approve", e.cross, maxU); err != nil {
-				out.Count("setup:tst-approve-error:" + firstLine(err.Error()))
-			}
-		}
-		e.tst = tok
-	}()
 	// hook tokens: externally owned native ERC-20s (registered like a governance-approved token) whose transferFrom runs a
 	// generated program in a hook contract that can itself hold stake and call the precompiles
 	for k := 0; k < nHook; k++ {
@@ -220,6 +173,53 @@ func setup(t *testing.T, out *hx.Out) *env {
 		e.hookTok = append(e.hookTok, ta)
 		e.hookAddr = append(e.hookAddr, ha)
 	}
+	// ERC-20 faces: WFX (token pair of the default denom) for every pool contract, spendable by the crosschain precompile
+	fip := contract.GetFIP20()
+	maxU := new(big.Int).Sub(new(big.Int).Lsh(big.NewInt(1), 255), big.NewInt(1))
+	if pair, ok := s.App.Erc20Keeper.GetTokenPair(s.Ctx, fxtypes.DefaultDenom); ok {
+		e.wfx = pair.GetERC20Contract()
+		for _, a := range append(append([]common.Address{}, e.pool...), e.hookAddr...) {
+			if _, err := s.App.Erc20Keeper.ConvertCoin(s.Ctx, &erc20types.MsgConvertCoin{Coin: sdk.NewCoin(fxtypes.DefaultDenom, big18(1000)),
+				Receiver: a.Hex(), Sender: sdk.AccAddress(a.Bytes()).String()}); err != nil {
+				out.Count("setup:wfx-convert-error:" + firstLine(err.Error()))
+				e.wfx = common.Address{}
+				break
+			}
+			if _, err := s.App.EvmKeeper.ApplyContract(s.Ctx, a, e.wfx, nil, fip.ABI, "approve", e.cross, maxU); err != nil {
+				out.Count("setup:wfx-approve-error:" + firstLine(err.Error()))
+			}
+		}
+	} else {
+		out.Count("setup:no-FX-token-pair")
+	}
+	// a native ERC-20 (contract owner external) with an eth bridge alias
+	func() {
+		mod := s.App.Erc20Keeper.ModuleAddress()
+		tok, err := s.App.Erc20Keeper.DeployUpgradableToken(s.Ctx, mod, "Test token", "TST", 18)
+		if err != nil {
+			out.Count("setup:tst-deploy-error:" + firstLine(err.Error()))
+			return
+		}
+		for _, a := range append(append([]common.Address{}, e.pool...), e.hookAddr...) {
+			if _, err := s.App.EvmKeeper.ApplyContract(s.Ctx, mod, tok, nil, fip.ABI, "mint", a, big18(1000).BigInt()); err != nil {
+				out.Count("setup:tst-mint-error:" + firstLine(err.Error()))
+				return
+			}
+		}
+		ext := helpers.GenExternalAddr(ethtypes.ModuleName)
+		alias := crosschaintypes.NewBridgeDenom(ethtypes.ModuleName, ext)
+		s.App.EthKeeper.AddBridgeToken(s.Ctx, alias, alias)
+		if _, err := s.App.Erc20Keeper.RegisterNativeERC20(s.Ctx, tok, alias); err != nil {
+			out.Count("setup:tst-register-error:" + firstLine(err.Error()))
+			return
+		}
+		for _, a := range append(append([]common.Address{}, e.pool...), e.hookAddr...) {
+			if _, err := s.App.EvmKeeper.ApplyContract(s.Ctx, a, tok, nil, fip.ABI, "approve", e.cross, maxU); err != nil {
+				out.Count("setup:tst-approve-error:" + firstLine(err.Error()))
+			}
+		}
+		e.tst = tok
+	}()
 	// pending claims for executeClaim: FX arriving from eth for fresh receivers (the eth module holds the FX)
 	s.MintTokenToModule(ethtypes.ModuleName, sdk.NewCoin(fxtypes.DefaultDenom, big18(1000)))
 	for k := 0; k < nClaim; k++ {
